@@ -137,6 +137,7 @@ i64 time_calls() { return S().time_calls; }
 #ifdef SIM_HAVE_FS_SEAM
 static FILE * sim_open(const char * path, const char * mode, bool & handled)
 {
+  sim::sched::NoPoints np_;
   handled = false;
   if (!is_sim_path(path)) return nullptr;
   handled = true;
@@ -174,6 +175,7 @@ static FILE * sim_open(const char * path, const char * mode, bool & handled)
 
 static ssize_t sim_write(int fd, const char * buf, size_t n, FdState & st)
 {
+  sim::sched::NoPoints np_;
   State & s = S();
   i64 call = s.write_calls++;
   s.stats.writes++;
@@ -247,11 +249,13 @@ FILE * __wrap_fopen(const char * path, const char * mode)
 }
 int __wrap_fclose(FILE * f)
 {
+  sim::sched::NoPoints np_;
   if (f) { int fd = fileno(f); S().fds.erase(fd); }
   return __real_fclose(f);
 }
 static int sim_open_fd(const char * path, int flags, bool & handled)
 {
+  sim::sched::NoPoints np_;
   handled = false;
   if (!is_sim_path(path)) return -1;
   handled = true;
@@ -295,6 +299,7 @@ int __wrap_open64(const char * path, int flags, ...)
 }
 int __wrap_close(int fd)
 {
+  sim::sched::NoPoints np_;
   State & s = S();
   if (!s.fds.empty()) s.fds.erase(fd);
   return __real_close(fd);
@@ -304,6 +309,7 @@ ssize_t __wrap_read(int fd, void * buf, size_t n)
   // thread mode: every read issued by a simulated task is a schedule point (lazy loading of catalogue
   // lists and gA tables happens inside the library's first-use paths)
   if (sim::sched::io_points() && sim::sched::current_task() >= 0) sim::sched_point(sim::SP_IO, fd);
+  sim::sched::NoPoints np_;
   State & s = S();
   if (s.fds.empty()) return __real_read(fd, buf, n);
   auto it = s.fds.find(fd);
@@ -328,6 +334,7 @@ ssize_t __wrap_read(int fd, void * buf, size_t n)
 }
 ssize_t __wrap_write(int fd, const void * buf, size_t n)
 {
+  sim::sched::NoPoints np_;
   State & s = S();
   if (s.fds.empty()) return __real_write(fd, buf, n);
   auto it = s.fds.find(fd);
@@ -336,6 +343,7 @@ ssize_t __wrap_write(int fd, const void * buf, size_t n)
 }
 ssize_t __wrap_writev(int fd, const struct iovec * iov, int cnt)
 {
+  sim::sched::NoPoints np_;
   State & s = S();
   if (s.fds.empty()) return __real_writev(fd, iov, cnt);
   auto it = s.fds.find(fd);
